@@ -61,3 +61,82 @@ contract(EN, props=['C01'], blocks_only=True, returns='ParsedOperand?',
                  f'implies(arg_part is not None, arg_part._value == cfg_int({AD}[matched_key])'
                  ' and arg_part._value_size == cfg_int(self._config["argument"]["size"]))'],
              modifies=[], allocates=True)})
+
+# ---- the order of the parts of an instruction (MatchedOperandSet.generate_bytecode) ------------------------------------
+MOS = 'bespokeasm.assembler.model.operand_parser:MatchedOperandSet.generate_bytecode'
+
+
+@spec(rec=True, sig=['arr[ParsedOperand]', 'arr[bool]', 'int', 'int'])
+def cntf(ops, flag, i):
+    """how many of the first i operands have the flag"""
+    if i <= 0:
+        return 0
+    return cntf(ops, flag, i - 1) + ite(flag[ops[i - 1]], 1, 0)
+
+
+@spec
+def op_pos(po):
+    """configured position of an operand's code: 'prefix', 'suffix' (the default), or '' when it has no code section"""
+    if 'bytecode' in po._operand._config:
+        return cfg_str(po._operand._config['bytecode'].get('position', 'suffix'))
+    return ''
+
+
+OPS = 'elems(self._operands)'
+N = 'len(self._operands)'
+FP = 'lam(lambda r: r._bytecode is not None and op_pos(r) == "prefix", types={"r": "ParsedOperand"})'
+FS = 'lam(lambda r: r._bytecode is not None and op_pos(r) == "suffix", types={"r": "ParsedOperand"})'
+FA = 'lam(lambda r: r._argument is not None, types={"r": "ParsedOperand"})'
+NP, NS, NA = f'cntf({OPS}, {FP}, {N})', f'cntf({OPS}, {FS}, {N})', f'cntf({OPS}, {FA}, {N})'
+SFX1 = 'ite(base_bytecode_suffix is not None, 1, 0)'
+contract(MOS, props=['C01'],
+         params={'base_bytecode': 'ByteCodePart', 'base_bytecode_suffix': 'ByteCodePart?'}, returns='list[ByteCodePart]',
+         may_raise={'SystemExit': 'True', 'KeyError': 'True'},
+         ensures=[
+             # prefix codes, the opcode, suffix codes, the opcode suffix, the arguments -- nothing else
+             f'len(result) == {NP} + 1 + {NS} + {SFX1} + {NA}',
+             f'elems(result)[{NP}] is base_bytecode',
+             f'implies(base_bytecode_suffix is not None, elems(result)[{NP} + 1 + {NS}] is base_bytecode_suffix)',
+             # prefix codes stand before the opcode, the later operand first -- operand order when the codes are reversed
+             f'forall(lambda j: implies(0 <= j and j < {N} and {FP}[{OPS}[j]], elems(result)[ite(self._reverse_op_bytecode_order,'
+             f' cntf({OPS}, {FP}, j), {NP} - 1 - cntf({OPS}, {FP}, j))] is {OPS}[j]._bytecode))',
+             # suffix codes follow the opcode in operand order -- reversed when the codes are reversed
+             f'forall(lambda j: implies(0 <= j and j < {N} and {FS}[{OPS}[j]], elems(result)[{NP} + 1 + ite('
+             f'self._reverse_op_bytecode_order, {NS} - 1 - cntf({OPS}, {FS}, j), cntf({OPS}, {FS}, j))] is {OPS}[j]._bytecode))',
+             # the arguments come last, in operand order -- reversed exactly when the argument order is reversed
+             f'forall(lambda j: implies(0 <= j and j < {N} and {FA}[{OPS}[j]], elems(result)[{NP} + 1 + {NS} + {SFX1} + ite('
+             f'self._reverse_arg_order, {NA} - 1 - cntf({OPS}, {FA}, j), cntf({OPS}, {FA}, j))] is {OPS}[j]._argument))'],
+         modifies=[], allocates=True,
+         locals={'machine_code': 'list[ByteCodePart]', 'suffix_op_bytecode': 'list[ByteCodePart]',
+                 'prefix_op_bytecode': 'list[ByteCodePart]', 'arguments': 'list[ByteCodePart]'},
+         loops={
+             '0': dict(idx='i', allocates=True, modifies=['suffix_op_bytecode[*]', 'prefix_op_bytecode[*]'],
+                       inv=[f'i <= {N}', 'fresh(suffix_op_bytecode)', 'fresh(prefix_op_bytecode)', 'fresh(machine_code)',
+                            'suffix_op_bytecode is not prefix_op_bytecode', 'machine_code is not prefix_op_bytecode',
+                            'machine_code is not suffix_op_bytecode',
+                            'len(machine_code) == 1 and elems(machine_code)[0] is base_bytecode',
+                            f'len(prefix_op_bytecode) == cntf({OPS}, {FP}, i)', f'len(suffix_op_bytecode) == cntf({OPS}, {FS}, i)',
+                            f'forall(lambda j: implies(0 <= j and j < i and {FP}[{OPS}[j]], elems(prefix_op_bytecode)['
+                            f'cntf({OPS}, {FP}, i) - 1 - cntf({OPS}, {FP}, j)] is {OPS}[j]._bytecode))',
+                            f'forall(lambda j: implies(0 <= j and j < i and {FS}[{OPS}[j]], elems(suffix_op_bytecode)['
+                            f'cntf({OPS}, {FS}, j)] is {OPS}[j]._bytecode))',
+                            f'forall(lambda j: implies(0 <= j and j < i and {FP}[{OPS}[j]], 0 <= cntf({OPS}, {FP}, j) and '
+                            f'cntf({OPS}, {FP}, j) < cntf({OPS}, {FP}, i)))',
+                            f'forall(lambda j: implies(0 <= j and j < i and {FS}[{OPS}[j]], 0 <= cntf({OPS}, {FS}, j) and '
+                            f'cntf({OPS}, {FS}, j) < cntf({OPS}, {FS}, i)))',
+                            f'0 <= cntf({OPS}, {FP}, i) and 0 <= cntf({OPS}, {FS}, i)']),
+             'comp0': dict(idx='c', allocates=True, modifies=['arguments[*]'],
+                           inv=[f'c <= {N}', 'fresh(arguments)', 'arguments is not machine_code',
+                                f'len(arguments) == cntf({OPS}, {FA}, c)',
+                                f'forall(lambda j: implies(0 <= j and j < c and {FA}[{OPS}[j]], elems(arguments)['
+                                f'cntf({OPS}, {FA}, j)] is {OPS}[j]._argument))',
+                                f'forall(lambda j: implies(0 <= j and j < c and {FA}[{OPS}[j]], 0 <= cntf({OPS}, {FA}, j) and '
+                                f'cntf({OPS}, {FA}, j) < cntf({OPS}, {FA}, c)))',
+                                f'0 <= cntf({OPS}, {FA}, c)']),
+             '1': dict(idx='k', modifies=['machine_code[*]'],
+                       inv=['k <= len(arguments)', 'arguments is not machine_code',
+                            f'len(machine_code) == {NP} + 1 + {NS} + {SFX1} + k',
+                            f'forall(lambda q: implies({NP} + 1 + {NS} + {SFX1} <= q and q < {NP} + 1 + {NS} + {SFX1} + k,'
+                            f' elems(machine_code)[q] is elems(arguments)[q - ({NP} + 1 + {NS} + {SFX1})]))',
+                            f'forall(lambda t: implies(0 <= t and t < {NP} + 1 + {NS} + {SFX1}, elems(machine_code)[t] is'
+                            ' entry(elems(machine_code))[t]))'])})
